@@ -465,6 +465,33 @@ fn c03_parts(c: &mut Ctx, r: &mut Rng, fam: Fam, b: &[u8]) {
     let qos = *r.pick(&[mqtt_proto::QoS::Level0, mqtt_proto::QoS::Level1, mqtt_proto::QoS::Level2]);
     let which = r.below(24);
     c.count("parts");
+    // the public `PollHeader` surface with a header that need not agree with the slice it is given
+    {
+        use mqtt_proto::PollHeader;
+        let ctl = if !b.is_empty() && r.bool() { b[0] } else { r.u8() };
+        c03_guarded(c, fam, b, 7, || match fam {
+            Fam::V3 => {
+                if let Ok(h) = <v3::Header as PollHeader>::new_with(ctl, rl) {
+                    let _ = h.build_empty_packet();
+                    let _ = PollHeader::remaining_len(&h);
+                    let mut s = body;
+                    if let Err(e) = h.block_decode(&mut s) {
+                        let _ = <v3::Header as PollHeader>::is_eof_error(&e);
+                    }
+                }
+            }
+            Fam::V5 => {
+                if let Ok(h) = <v5::Header as PollHeader>::new_with(ctl, rl) {
+                    let _ = h.build_empty_packet();
+                    let _ = PollHeader::remaining_len(&h);
+                    let mut s = body;
+                    if let Err(e) = h.block_decode(&mut s) {
+                        let _ = <v5::Header as PollHeader>::is_eof_error(&e);
+                    }
+                }
+            }
+        });
+    }
     c03_guarded(c, fam, b, 7, || {
         let mut s = body;
         let rd = &mut s;
